@@ -74,6 +74,8 @@ const SQRT_TOL: f32 = 2.4e-7; // 2 ulp of y^2
 fn c20_sqrt() {
     let x: f32 = kani::any();
     kani::assume(x >= 1.0 && x < 4.0);
+    #[cfg(not(feature = "deep"))]
+    kani::assume(x.to_bits() & 0x7fff == 0); // quick tier: 8 leading mantissa bits
     let y = rf::sqrt(x);
     assert!(y >= 0.0);
     let e = y * y - x;
@@ -89,6 +91,8 @@ fn c20_sqrt() {
 fn c20_recip_sqrt() {
     let x: f32 = kani::any();
     kani::assume(x >= 1.0 && x < 4.0);
+    #[cfg(not(feature = "deep"))]
+    kani::assume(x.to_bits() & 0x7fff == 0); // quick tier: 8 leading mantissa bits
     #[cfg(feature = "cfg-bare")]
     let y = re::math::float::fallback::recip_sqrt(x);
     #[cfg(feature = "cfg-mm")]
